@@ -200,6 +200,19 @@ def check_pack(ctx, rules=("PACK", "AFFINE", "FEASIBLE")):
                     k_rb = v.slice.upper.operand.value
                 elif U(v) == "result.x":
                     k_rb = 0
+        # the residual function stores every trial point into data_flat[free]; only the unconditional read-back of result.x
+        # afterwards restores the optimiser's answer (for a run that stops without converging, result.x is still the best
+        # point found, whereas the last trial point may be a rejected step that fits worse than the candidate)
+        if "PACK" in rules and rb_cands:
+            from ..astutil import canon_guards as _cg
+
+            g_call = _cg(si, c)
+            cond_rb = [s_ for s_ in rb_cands if _cg(si, s_) - g_call - set(assume)]
+            extra = sorted(t_ for s_ in cond_rb for t_, _p in (_cg(si, s_) - g_call) if "adjust_values" not in t_ and "vrng" not in t_)
+            ctx.decide(not extra, "PACK", site + ":read-back", (fi, (cond_rb or rb_cands)[0]),
+                       "the optimiser's result is written back unconditionally after the fit",
+                       f"the fitted parameters are copied back only under {extra}: otherwise the droplet keeps the *last trial point* the residual function stored in data_flat "
+                       "(possibly a rejected step), which can fit worse than the candidate")
         ks = {"x0": len(x0_extra), "lower": len(lo_extra), "upper": len(hi_extra), "residual": k_cl, "read-back": k_rb}
         if "PACK" in rules:
             ctx.decide(len(set(ks.values())) == 1 and store_ok, "PACK", site + ":slots", (fi, c),
